@@ -15,10 +15,10 @@
 using namespace sim;
 
 enum { ST_RUNS, ST_OPS, ST_BACKEND, F_DELAY_A, F_DELAY_B, F_OVERTAKE, F_UNSAFE_MODE,
-       P_ASSIGNED, P_DRIVEN, P_FINE, P_UNBOUND_SILENT, P_UNMAP_STOPS, P_QUEUE2, P_RELEARN, P_CLEAR, P_PAIR, P_CLOSING_LEARN, P_STALE_GEN_DRIVE, P_DUP_REQUEST, P_FOREIGN_POP, P_PENDING_LEAK, P_FINE_WEIGHT, ST_N };
+       P_ASSIGNED, P_DRIVEN, P_FINE, P_UNBOUND_SILENT, P_UNMAP_STOPS, P_QUEUE2, P_RELEARN, P_CLEAR, P_PAIR, P_CLOSING_LEARN, P_STALE_GEN_DRIVE, P_DUP_REQUEST, P_FOREIGN_POP, P_PENDING_LEAK, P_FINE_WEIGHT, P_VALUE_MEMORY, P_UNMAP_OTHER, ST_N };
 static const char *STAT_NAMES[ST_N] = { "runs", "ops", "backend_messages", "fault.delayed_delivery_nrt_to_rt", "fault.delayed_delivery_rt_to_nrt", "fault.user_or_midi_event_overtakes_message_in_flight", "runs.trigger_patterns_of_known_findings_allowed",
        "probe.controller_assigned_to_oldest_request", "probe.bound_controller_drives", "probe.fine_controller_learned", "probe.unassigned_controller_silent", "probe.unmapped_controller_silent", "probe.two_requests_queued", "probe.relearn_of_bound_address", "probe.clear",
-       "probe.monotonic_pair", "probe.closing_phase_learn", "probe.drive_under_stale_generation", "trigger.duplicate_use_cc_request", "trigger.bind_pops_foreign_pending", "trigger.pending_leak_after_clear", "probe.coarse_fine_composition_checked" };
+       "probe.monotonic_pair", "probe.closing_phase_learn", "probe.drive_under_stale_generation", "trigger.duplicate_use_cc_request", "trigger.bind_pops_foreign_pending", "trigger.pending_leak_after_clear", "probe.coarse_fine_composition_checked", "probe.same_input_seen_again", "probe.pair_value_survives_unmap_of_other_address" };
 
 enum { U_MAP = 0, U_UNMAP, U_CLEAR, M_CC, M_PAIR, D_A, D_B };
 static const char *ADDR[] = {"/pi", "/pf", "/pi_neg", "/pf_unit", "/pi7", "/sub/sf"};
@@ -51,7 +51,7 @@ struct MidiWorld : World {
         double w_user = 0.15 + 0.2 * pr.unit(), w_midi = 0.25 + 0.3 * pr.unit(), w_del = 0.2 + 0.4 * pr.unit(); double tot = w_user + w_midi + w_del;
         for (int i = 0; i < n; i++) { Op o; double u = pr.unit() * tot;
             if ((u -= w_user) < 0) { double s = pr.unit(); o.kind = s < 0.65 ? U_MAP : s < 0.9 ? U_UNMAP : U_CLEAR; o.a[0] = pr.below(na); o.a[1] = pr.chance(0.25); }
-            else if ((u -= w_midi) < 0) { o.kind = pr.chance(0.25) ? M_PAIR : M_CC; o.a[0] = 2 + pr.below(nc); o.a[1] = pr.chance(0.2) ? pr.pick(std::vector<int64_t>{0, 127, 64}) : (int64_t)pr.below(128); o.a[2] = pr.below(128); if (o.kind == M_PAIR && o.a[1] > o.a[2]) std::swap(o.a[1], o.a[2]); }
+            else if ((u -= w_midi) < 0) { o.kind = pr.chance(0.25) ? M_PAIR : M_CC; o.a[0] = 2 + pr.below(nc); o.a[1] = pr.chance(0.2) ? pr.pick(std::vector<int64_t>{0, 127, 64}) : (int64_t)pr.below(128); if (o.kind == M_CC && pr.chance(0.3)) o.a[1] = -1; /* -1: send the value this controller sent last */ o.a[2] = pr.below(128); if (o.kind == M_PAIR && o.a[1] > o.a[2]) std::swap(o.a[1], o.a[2]); }
             else o.kind = pr.chance(0.5) ? D_A : D_B;
             p.push_back(o); }
     }
@@ -66,6 +66,8 @@ struct MidiWorld : World {
         BindMap mb; std::deque<std::pair<std::string, bool>> mq; BindMap gen;                 // nRT bindings, learn queue, RT's current generation
         std::deque<int> rt_pending; int rt_watch = 0; std::set<int> used_ids; bool nontrivial = false; uint64_t shape = 0; int opi = 0;
         std::string taint; bool model_trusted = true;
+        std::map<int, int> last_val;                                        // last value each controller sent
+        struct Mem { int vc = -1, vf = -1; std::map<std::pair<int, int>, double> seen; }; std::map<std::string, Mem> mem;   // per address: known 14-bit inputs and the outputs they produced
         auto fail = [&](const char *cls, const std::string &d) { if (res.cls.empty()) { res.cls = cls; res.detail = d; } };
         auto add_taint = [&](const char *t) { if (taint.find(t) == std::string::npos) { taint += (taint.empty() ? "" : "+") + std::string(t); note(("taint=" + taint).c_str()); } };   // the note survives a crash of the run
         bool last_from_assign = false;
@@ -83,7 +85,7 @@ struct MidiWorld : World {
         auto resync_model = [&]() { mb.clear(); for (int i = 0; i < NADDR; i++) { std::string a = ADDR[i]; int c = nrt->getCoarse(a), f = nrt->getFine(a); if (c != -1 || f != -1) { mb[a].coarse = c; mb[a].fine = f; } } mq.assign(nrt->learnQueue.begin(), nrt->learnQueue.end()); };
         // one MIDI event at the realtime half
         auto midi_cc = [&](int id, int v, double *out, std::string *to) -> bool {
-            backend.clear(); used_ids.insert(id);
+            backend.clear(); used_ids.insert(id); last_val[id] = v;
             std::string addr; bool coarse = true; int owners = id_owner(gen, id, addr, coarse);
             // mirror of the watch/pending handshake (for trigger detection only)
             size_t b0 = chB.size();
@@ -99,6 +101,10 @@ struct MidiWorld : World {
             if ((t != 'i' && t != 'f') || !(val >= lo && val <= hi)) { snprintf(b, sizeof b, "op %d: controller %d value %d drove %s with %c %.9g outside [%g,%g]", opi, id, v, m, t, val, lo, hi); fail("RANGE", b); return false; }
             if (!node.apply_raw(m)) { snprintf(b, sizeof b, "op %d: message to %s (type %c) is not admitted by its port", opi, m, t); fail("TYPE", b); return false; }
             stat_add(P_DRIVEN); if (!chA.empty() || !chB.empty()) nontrivial = true; if (out) *out = val; if (to) *to = addr;
+            { // the same 14-bit controller value produces the same output, whatever happened to OTHER addresses in between
+                Mem &mm = mem[addr]; if (coarse) mm.vc = v; else mm.vf = v; Bind gb = gen[addr]; bool know = (gb.coarse < 0 || mm.vc >= 0) && (gb.fine < 0 || mm.vf >= 0) && gb.coarse >= 0;
+                if (know) { auto key = std::make_pair(mm.vc, gb.fine < 0 ? 0 : mm.vf); auto itS = mm.seen.find(key);
+                    if (itS == mm.seen.end()) mm.seen[key] = val; else { stat_add(P_VALUE_MEMORY); if (itS->second != val) { snprintf(b, sizeof b, "op %d: %s: coarse value %d, fine value %d produced %.9g earlier and %.9g now although its controllers never changed (the stored 14-bit value was lost when another address was mapped or unmapped)", opi, addr.c_str(), key.first, key.second, itS->second, val); fail("VALUE-MEMORY", b); return false; } } } }
             { std::string a2; bool c2; if (id_owner(mb, id, a2, c2) != 1 || a2 != addr) stat_add(P_STALE_GEN_DRIVE); }
             return true;
         };
@@ -110,7 +116,7 @@ struct MidiWorld : World {
             if (mq.empty()) { last_from_assign = false; nrt->useFreeID(id); check_nrt_view("use-CC with nothing queued"); return; }   // nothing to assign; whether the controller stays learnable is judged in the closing phase
             if (dup && taint.empty()) { snprintf(b, sizeof b, "op %d: controller %d is already assigned to %s, yet the realtime half reported it as free again while nothing had retired its first report", opi, id, a.c_str()); fail("DUPLICATE-REQUEST", b); return; }
             if (dup) { stat_add(P_DUP_REQUEST); add_taint("duplicate-use-cc"); last_from_assign = true; nrt->useFreeID(id); last_from_assign = false; resync_model(); model_trusted = false; for (auto &mm : chA) if (mm.is_bind) mm.snap = mb; return; }
-            auto front = mq.front(); mq.pop_front(); if (front.second) mb[front.first].coarse = id; else { mb[front.first].fine = id; stat_add(P_FINE); }
+            auto front = mq.front(); mq.pop_front(); mem.erase(front.first); if (front.second) mb[front.first].coarse = id; else { mb[front.first].fine = id; stat_add(P_FINE); }
             last_from_assign = true; nrt->useFreeID(id); last_from_assign = false; stat_add(P_ASSIGNED); if (!chA.empty()) nontrivial = true;
             check_nrt_view("controller assigned to the oldest request"); };
         auto drain = [&]() { for (int g = 0; g < 200 && (!chA.empty() || !chB.empty()); g++) { if (!chA.empty()) deliver_A(); if (!chB.empty()) deliver_B(); } };
@@ -124,6 +130,7 @@ struct MidiWorld : World {
             if (!unsafe && emits_bind) { drain(); it = mb.find(a); }
             if (!unsafe && kind == U_CLEAR && (!mq.empty() || rt_watch > 0 || !rt_pending.empty())) return;
             if ((!chA.empty() || !chB.empty())) stat_add(F_OVERTAKE);
+            if (kind == U_CLEAR) mem.clear(); else mem.erase(a);
             last_from_assign = false;
             if (kind == U_MAP) { if (it != mb.end()) { if (coarse) it->second.coarse = -1; else it->second.fine = -1; if (it->second.coarse == -1 && it->second.fine == -1) mb.erase(it); } mq.push_back({a, coarse}); if (mq.size() >= 2) stat_add(P_QUEUE2); nrt->map(a.c_str(), coarse); }
             else if (kind == U_UNMAP) { if (it != mb.end()) { if (coarse) it->second.coarse = -1; else it->second.fine = -1; if (it->second.coarse == -1 && it->second.fine == -1) mb.erase(it); } nrt->unMap(a.c_str(), coarse); }
@@ -139,7 +146,7 @@ struct MidiWorld : World {
             opi++; stat_add(ST_OPS); shape = mix64(shape, op.kind * 1009 + (uint64_t)op.a[0] * 17 + (uint64_t)op.a[1]);
             switch (op.kind) {
             case U_MAP: case U_UNMAP: case U_CLEAR: user_op(op.kind, ADDR[(a0 + (((op.a[0] % na) + na) % na)) % NADDR], !(op.a[1] & 1)); break;
-            case M_CC: if (!chA.empty() || !chB.empty()) stat_add(F_OVERTAKE); midi_cc((int)(((op.a[0] % 120) + 120) % 120), (int)(((op.a[1] % 128) + 128) % 128), nullptr, nullptr); break;
+            case M_CC: { if (!chA.empty() || !chB.empty()) stat_add(F_OVERTAKE); int id = (int)(((op.a[0] % 120) + 120) % 120); int v = op.a[1] < 0 ? (last_val.count(id) ? last_val[id] : 64) : (int)(op.a[1] % 128); midi_cc(id, v, nullptr, nullptr); break; }
             case M_PAIR: { int id = (int)(((op.a[0] % 120) + 120) % 120), v1 = (int)(((op.a[1] % 128) + 128) % 128), v2 = (int)(((op.a[2] % 128) + 128) % 128); if (v1 > v2) std::swap(v1, v2);
                 double o1 = 0, o2 = 0; std::string a1, a2; if (midi_cc(id, v1, &o1, &a1) && midi_cc(id, v2, &o2, &a2) && !a1.empty() && a1 == a2 && model_trusted) { stat_add(P_PAIR); if (o2 < o1) { snprintf(b, sizeof b, "op %d: controller %d: value fell from %.9g to %.9g when the controller value rose from %d to %d (%s)", opi, id, o1, o2, v1, v2, a1.c_str()); fail("MONOTONIC", b); } }
                 break; }
@@ -170,6 +177,13 @@ struct MidiWorld : World {
                 if (!(midi_cc(c, 10, &o0, &t) && midi_cc(f, 0, &o0, &t) && midi_cc(f, 127, &o1, &t) && midi_cc(c, 11, &o2, &t) && midi_cc(f, 0, &o3, &t))) break; stat_add(P_FINE_WEIGHT);
                 if (!(o0 <= o1 && o1 <= o3 && o3 <= o2)) { snprintf(b, sizeof b, "quiescent: %s coarse %d fine %d: (coarse 10, fine 0) -> %.9g, (10,127) -> %.9g, (11,0) -> %.9g, (11,127) -> %.9g: not ordered as the 14-bit value", kv.first.c_str(), c, f, o0, o1, o3, o2); fail("FINE-WEIGHT", b); } }
             if (res.cls.empty() && model_trusted) for (int id : used_ids) { std::string a; bool c; if (id_owner(mb, id, a, c) == 0) { opi++; backend.clear(); rt->handleCC(id, 5); if (!backend.empty()) { snprintf(b, sizeof b, "quiescent: controller %d is assigned to nothing (unmapped or never assigned) but drove %s", id, backend[0].data()); fail("CROSS-DRIVE", b); break; } stat_add(P_UNMAP_STOPS); } }
+            // unmapping ANOTHER address leaves a coarse+fine pair's stored 14-bit value alone ("other addresses' bindings are unaffected")
+            if (res.cls.empty() && model_trusted) { std::string pairaddr, other; bool other_coarse = true;
+                for (auto &kv : mb) if (kv.second.coarse >= 0 && kv.second.fine >= 0) pairaddr = kv.first;
+                for (auto &kv : mb) if (kv.first != pairaddr && !pairaddr.empty()) { other = kv.first; other_coarse = kv.second.coarse >= 0; }
+                if (!pairaddr.empty() && !other.empty()) { Bind pb = mb[pairaddr]; double oa = 0, ob = 0; std::string t; opi++;
+                    if (midi_cc(pb.coarse, 90, &oa, &t) && midi_cc(pb.fine, 33, &oa, &t)) { user_op(U_UNMAP, other, other_coarse); drain();
+                        if (res.cls.empty() && midi_cc(pb.fine, 33, &ob, &t) && res.cls.empty()) { stat_add(P_UNMAP_OTHER); if (oa != ob) { snprintf(b, sizeof b, "closing phase: %s (coarse 90, fine 33) produced %.9g; after unmapping the unrelated %s the same fine value produced %.9g", pairaddr.c_str(), oa, other.c_str(), ob); fail("VALUE-MEMORY", b); } } } } }
             // a controller that was used before but is assigned to nothing must still be learnable
             if (res.cls.empty() && model_trusted) { drain(); for (int id : used_ids) { std::string a; bool c; if (id_owner(mb, id, a, c) != 0) continue; std::string target; for (int i = 0; i < na; i++) if (!mb.count(ADDR[(a0 + i) % NADDR])) { target = ADDR[(a0 + i) % NADDR]; break; } if (target.empty()) break; opi++;
                     user_op(U_MAP, target, true); drain(); midi_cc(id, 9, nullptr, nullptr); drain(); if (!res.cls.empty()) break;
